@@ -52,6 +52,22 @@ func strLit(e ast.Expr) (string, bool) {
 	return s, err == nil
 }
 
+// specFieldsRead: the X of every `<ident>.Spec.X` selector inside e.
+func specFieldsRead(e ast.Expr) []string {
+	var out []string
+	ast.Inspect(e, func(n ast.Node) bool {
+		se, ok := n.(*ast.SelectorExpr)
+		if !ok {
+			return true
+		}
+		if in, ok := se.X.(*ast.SelectorExpr); ok && in.Sel.Name == "Spec" {
+			out = append(out, se.Sel.Name)
+		}
+		return true
+	})
+	return out
+}
+
 // leanBytes renders a Go string as a Lean `List UInt8` literal (kernel-reducible, unlike `String.toUTF8`).
 func leanBytes(s string) string {
 	parts := make([]string, len(s))
@@ -178,6 +194,28 @@ func main() {
 					if strings.HasPrefix(n, "klog.") {
 						continue
 					}
+					// `c.<some atomic.Value>.Store(<expr over cluster.Spec.X ...>)`: a publication, named by WHAT it
+					// publishes (the Spec fields read by the argument), not by the field it is stored in; consecutive
+					// publications are one step (their relative order is irrelevant to the model)
+					if se, ok := c.Fun.(*ast.SelectorExpr); ok && se.Sel.Name == "Store" && len(c.Args) == 1 {
+						fields := specFieldsRead(c.Args[0])
+						if len(fields) > 0 {
+							if len(order) > 0 && strings.HasPrefix(order[len(order)-1], "publish:") {
+								prev := strings.Split(strings.TrimPrefix(order[len(order)-1], "publish:"), "+")
+								fields = append(fields, prev...)
+								order = order[:len(order)-1]
+							}
+							sort.Strings(fields)
+							uniq := fields[:0]
+							for i, f := range fields {
+								if i == 0 || f != fields[i-1] {
+									uniq = append(uniq, f)
+								}
+							}
+							order = append(order, "publish:"+strings.Join(uniq, "+"))
+							continue
+						}
+					}
 					order = append(order, n)
 				}
 			case *ast.IfStmt:
@@ -198,7 +236,7 @@ func main() {
 				}
 			}
 		}
-		b.WriteString("/-! " + cfile + ": callees of the top-level statements of ClusterInfo.Sync, in order -/\n")
+		b.WriteString("/-! " + cfile + ": the top-level steps of ClusterInfo.Sync, in order: callees, and `publish:<Spec fields>` for the atomic stores -/\n")
 		fmt.Fprintf(&b, "def syncOrder : List String := %s\n", lib.LeanStrList(order))
 		fmt.Fprintf(&b, "def syncReturnsErrOf : List String := %s\n", lib.LeanStrList(returnsErr))
 
@@ -207,25 +245,58 @@ func main() {
 		if fg == nil {
 			lib.Fatalf("ClusterInfo.syncFeatureGate not found")
 		}
-		setOnDefaultCopy := false
-		var copyVar string
-		ast.Inspect(fg.Body, func(n ast.Node) bool {
-			switch x := n.(type) {
-			case *ast.AssignStmt:
-				if len(x.Lhs) == 1 && len(x.Rhs) == 1 && exprString(x.Rhs[0]) == "features.DefaultMutableFeatureGate.DeepCopy()" {
-					if id, ok := x.Lhs[0].(*ast.Ident); ok {
-						copyVar = id.Name
-					}
-				}
-			case *ast.CallExpr:
-				if se, ok := x.Fun.(*ast.SelectorExpr); ok && se.Sel.Name == "Set" {
-					if id, ok := se.X.(*ast.Ident); ok && copyVar != "" && id.Name == copyVar {
-						setOnDefaultCopy = true
-					}
-				}
+		// Every `Set`/`SetFromMap` reached from syncFeatureGate (in its own body, in a same-receiver helper or in a function
+		// of package features it calls: one level) must have as receiver a local that was assigned
+		// `[features.]DefaultMutableFeatureGate.DeepCopy()`, never the gates of earlier syncs; and there must be one.
+		ffuncs := map[string]*ast.FuncDecl{}
+		for _, d := range ff.Decls {
+			if fd, ok := d.(*ast.FuncDecl); ok && fd.Recv == nil {
+				ffuncs[fd.Name.Name] = fd
 			}
-			return true
-		})
+		}
+		nSet, allOnCopies := 0, true
+		var analyse func(fd *ast.FuncDecl, depth int)
+		analyse = func(fd *ast.FuncDecl, depth int) {
+			copies := map[string]bool{}
+			ast.Inspect(fd.Body, func(n ast.Node) bool {
+				switch x := n.(type) {
+				case *ast.AssignStmt:
+					for k, rhs := range x.Rhs {
+						if k < len(x.Lhs) && strings.HasSuffix(exprString(rhs), "DefaultMutableFeatureGate.DeepCopy()") {
+							if id, ok := x.Lhs[k].(*ast.Ident); ok {
+								copies[id.Name] = true
+							}
+						}
+					}
+				case *ast.CallExpr:
+					se, ok := x.Fun.(*ast.SelectorExpr)
+					if !ok {
+						return true
+					}
+					if se.Sel.Name == "Set" || se.Sel.Name == "SetFromMap" {
+						nSet++
+						if id, ok := se.X.(*ast.Ident); !ok || !copies[id.Name] {
+							allOnCopies = false
+						}
+						return true
+					}
+					if depth == 0 {
+						if pk, ok := se.X.(*ast.Ident); ok && pk.Name == "features" {
+							if h, ok := ffuncs[se.Sel.Name]; ok {
+								analyse(h, 1)
+							}
+						} else if ok && pk.Name == "c" {
+							if h := lib.FuncDecl(cf, "ClusterInfo", se.Sel.Name); h != nil && h != fd {
+								analyse(h, 1)
+							}
+						}
+					}
+				}
+				return true
+			})
+		}
+		analyse(fg, 0)
+		setOnDefaultCopy := nSet > 0 && allOnCopies
 		fmt.Fprintf(&b, "/-- syncFeatureGate calls Set on a fresh `DefaultMutableFeatureGate.DeepCopy()` (not on the gates of earlier syncs) -/\n")
 		fmt.Fprintf(&b, "def gatesSetOnDefaultCopy : Bool := %v\n", setOnDefaultCopy)
 
@@ -298,35 +369,92 @@ func main() {
 		if su == nil {
 			lib.Fatalf("syncUpstreamCluster not found")
 		}
-		// position (statement index) of `cluster = latest` and of the conflict check / Sync call: the lister's
-		// object must be installed before anything uses `cluster`.
-		usesLister := false
-		listerVar := ""
-		assignPos, firstUsePos := -1, -1
-		for i, st := range su.Body.List {
-			if as, ok := st.(*ast.AssignStmt); ok && len(as.Rhs) == 1 {
-				if c, ok := as.Rhs[0].(*ast.CallExpr); ok && exprString(c.Fun) == "m.lister.Get" && len(as.Lhs) == 2 {
-					listerVar = selName(as.Lhs[0])
-				}
-				if len(as.Lhs) == 1 && selName(as.Lhs[0]) == "cluster" && listerVar != "" && selName(as.Rhs[0]) == listerVar && as.Tok == token.ASSIGN {
-					assignPos = i
-				}
-			}
-			ast.Inspect(st, func(n ast.Node) bool {
-				if c, ok := n.(*ast.CallExpr); ok {
-					fn := exprString(c.Fun)
-					if fn == "m.checkUpstreamServerNameConflict" || fn == "info.Sync" || fn == "clusters.CreateClusterInfo" {
-						if firstUsePos < 0 {
-							firstUsePos = i
+		// Which object reaches the conflict check, CreateClusterInfo and Sync: it must be the one `m.lister.Get` returned,
+		// never the queue item. Names are found by role: the queue item is the result of the type assertion on the handler's
+		// argument, the lister's object the first result of m.lister.Get; plain assignments move the roles; same-receiver
+		// helper methods are followed one level (parameters take the role of the arguments).
+		usesLister := true
+		nUses := map[string]int{}
+		var walk func(fd *ast.FuncDecl, role map[string]string, depth int)
+		walk = func(fd *ast.FuncDecl, role map[string]string, depth int) {
+			ast.Inspect(fd.Body, func(n ast.Node) bool {
+				switch x := n.(type) {
+				case *ast.AssignStmt:
+					if len(x.Rhs) == 1 {
+						switch r := x.Rhs[0].(type) {
+						case *ast.TypeAssertExpr:
+							if id, ok := x.Lhs[0].(*ast.Ident); ok {
+								role[id.Name] = "queued"
+							}
+						case *ast.CallExpr:
+							if exprString(r.Fun) == "m.lister.Get" {
+								if id, ok := x.Lhs[0].(*ast.Ident); ok && id.Name != "_" {
+									role[id.Name] = "lister"
+								}
+							}
+						case *ast.Ident:
+							if id, ok := x.Lhs[0].(*ast.Ident); ok && len(x.Lhs) == 1 {
+								if ro, ok := role[r.Name]; ok {
+									role[id.Name] = ro
+								}
+							}
+						}
+					}
+				case *ast.CallExpr:
+					fn := exprString(x.Fun)
+					kind := ""
+					switch {
+					case fn == "m.checkUpstreamServerNameConflict":
+						kind = "check"
+					case fn == "clusters.CreateClusterInfo":
+						kind = "create"
+					case strings.HasSuffix(fn, ".Sync") && len(x.Args) == 1:
+						kind = "sync"
+					}
+					if kind != "" && len(x.Args) > 0 {
+						if id, ok := x.Args[0].(*ast.Ident); ok {
+							nUses[kind]++
+							if role[id.Name] != "lister" {
+								usesLister = false
+							}
+						} else {
+							usesLister = false
+						}
+						return true
+					}
+					if se, ok := x.Fun.(*ast.SelectorExpr); ok && depth == 0 {
+						if rc, ok := se.X.(*ast.Ident); ok && rc.Name == "m" {
+							if h := lib.FuncDecl(uf, "UpstreamClusterController", se.Sel.Name); h != nil && h != fd && h.Type.Params != nil {
+								sub := map[string]string{}
+								k := 0
+								for _, f := range h.Type.Params.List {
+									for _, pn := range f.Names {
+										if k < len(x.Args) {
+											if id, ok := x.Args[k].(*ast.Ident); ok {
+												if ro, ok := role[id.Name]; ok {
+													sub[pn.Name] = ro
+												}
+											}
+										}
+										k++
+									}
+								}
+								if len(sub) > 0 {
+									walk(h, sub, 1)
+								}
+							}
 						}
 					}
 				}
 				return true
 			})
 		}
-		usesLister = assignPos >= 0 && firstUsePos > assignPos
+		walk(su, map[string]string{}, 0)
+		if nUses["check"] == 0 || nUses["create"] == 0 || nUses["sync"] == 0 {
+			usesLister = false
+		}
 		fmt.Fprintf(&b, "/-! %s -/\n", ufile)
-		fmt.Fprintf(&b, "/-- `cluster = latest` (the lister's object) is assigned before the conflict check / create / Sync -/\n")
+		fmt.Fprintf(&b, "/-- the object handed to the conflict check, CreateClusterInfo and Sync is the one `m.lister.Get` returned (by role; helpers followed one level) -/\n")
 		fmt.Fprintf(&b, "def controllerAppliesListerObject : Bool := %v\n", usesLister)
 		// the single-threaded argument: how many workers Run starts on the queue (the queue is a passthrough queue,
 		// its items are object pointers, so with more than one worker two versions of one cluster are handled at
